@@ -473,6 +473,8 @@ def check(case):
     tags = case["tags"]
     if kind == "composite":
         return check_composite(res, case)
+    if kind == "version":
+        return check_version(res, case)
     cfg = case.get("cfg")
     values_list = case["values"]
     modes = case["modes"]
@@ -491,6 +493,62 @@ def check(case):
         res.label("regex-special-separator")
     res.labels = sorted(set(res.labels))
     return res
+
+
+_VERSION_OPS = {"eq": lambda cur, tag: cur == tag, "ge": lambda cur, tag: cur >= tag, "le": lambda cur, tag: cur <= tag}
+
+
+def _version_tuple(text):
+    parts = text.split(".")
+    if not parts or any(not _INT_RE.match(p) for p in parts):
+        return None
+    return tuple(int(p, 10) for p in parts)
+
+
+def check_version(res, case):
+    """behave.active_tag.python.VersionValueObject (python.min_version / python.max_version): the current
+    version may be given as tuple or as dotted text; tag values are dotted numbers compared as tuples
+    with the declared operator; malformed tag values never match."""
+    import operator
+    from behave.active_tag.python import VersionValueObject
+    from behave.tag_matcher import ActiveTagMatcher
+    cur = case["cur"]
+    cur_tuple = tuple(cur) if isinstance(cur, list) else _version_tuple(cur)
+    op = case["op"]
+    current = VersionValueObject(tuple(cur) if isinstance(cur, list) else cur, getattr(operator, op))
+    matcher = ActiveTagMatcher({"python.version": current})
+    active = []
+    for tag in case["tags"]:
+        prefix, rest = tag.split(".with_", 1)
+        category, value = rest.split("=", 1)
+        active.append((prefix, category, value))
+    positives = [v for p, c, v in active if not is_negative(p)]
+    negatives = [v for p, c, v in active if is_negative(p)]
+
+    def matches(v):
+        t = _version_tuple(v)
+        return t is not None and bool(_VERSION_OPS[op](cur_tuple, t))
+    want = bool((positives and not any(matches(v) for v in positives)) or any(matches(v) for v in negatives))
+    got = matcher.should_exclude_with(case["tags"])
+    res.evals = 1
+    if bool(got) != want:
+        res.fail("C19.version-object", "VersionValueObject(%r, %s): should_exclude_with(%s) == %s, documented logic gives %s"
+                 % (cur, op, case["tags"], got, want))
+    res.label("version-object", "version-object:" + ("text" if isinstance(cur, str) else "tuple"))
+    res.nontrivial = len(case["tags"]) >= 2
+    return res
+
+
+def version_enumeration():
+    values = ["3.12", "3.5", "3", "3.12.1", "2.7", "3.x", ""]
+    prefixes = ["use", "not", "only"]
+    singles = ["%s.with_python.version=%s" % (p, v) for p in prefixes for v in values]
+    for cur in ("3.12", [3, 12], "3.5.2", [2, 7]):
+        for op in ("eq", "ge", "le"):
+            for t in singles:
+                yield {"kind": "version", "cur": cur, "op": op, "tags": [t]}
+            for a, b in itertools.combinations(singles, 2):
+                yield {"kind": "version", "cur": cur, "op": op, "tags": [a, b]}
 
 
 def check_composite(res, case):
@@ -563,6 +621,8 @@ def valid_case(case):
 
     if case.get("kind") == "composite":
         return all(member_ok(m) for m in case["members"])
+    if case.get("kind") == "version":
+        return bool(case.get("tags")) and case.get("op") in _VERSION_OPS
     return cfg_ok(case.get("cfg")) and all(value_ok(d) for v in case["values"] for d in v.values())
 
 
@@ -800,6 +860,7 @@ def explore(rec):
         rec.enum("typed-multisets=3:rotating-4-values:rotating-provider", typed_enumeration([3], 4, 1))
     else:
         rec.enum("typed-multisets<=3:all-values:all-providers", typed_enumeration([0, 1, 2, 3]))
+    rec.enum("version-value-objects", version_enumeration())
     # (c)-(e)
     rec.hyp("random-configuration", _strategy(gen_matrix_case), 60000 if quick else 1500000)
     rec.hyp("composite-matcher", _strategy(gen_composite_case), 24000 if quick else 400000)
